@@ -373,8 +373,12 @@ func (se *SessionExecutor) preBuildUnshardPlan(reqCtx *util.RequestContext, db s
 }
 
 func (se *SessionExecutor) handleSet(reqCtx *util.RequestContext, sql string, stmt *ast.SetStmt) (*mysql.Result, error) {
+	// MySQL applies a SET statement as a whole or not at all: when a later assignment is refused, the
+	// session variables, character set and collation recorded by the earlier ones are put back
+	savedVariables, savedCharset, savedCollation := se.sessionVariables.Clone(), se.charset, se.collation
 	for _, v := range stmt.Variables {
 		if err := se.handleSetVariable(reqCtx, sql, v); err != nil {
+			se.sessionVariables, se.charset, se.collation = savedVariables, savedCharset, savedCollation
 			return nil, err
 		}
 	}
